@@ -449,6 +449,7 @@ impl<'a> GeneratorState<'a> {
         high_byte: bool,
         second_time: bool,
     ) -> Result<ExprType, Error> {
+        #[cfg(cc6502_verif)] crate::verif_hooks::tick("generate.expr");
         debug!("Expression: {:?}, high_byte: {}", expr, high_byte);
         match expr {
             Expr::Integer(i) => Ok(ExprType::Immediate(*i)),
@@ -1178,6 +1179,7 @@ impl<'a> GeneratorState<'a> {
     }
 
     pub fn generate_statement(&mut self, code: &'a StatementLoc<'a>) -> Result<(), Error> {
+        #[cfg(cc6502_verif)] crate::verif_hooks::tick("generate.statement");
         // Include C source code into generated asm
         // debug!("{:?}, {}, {}, {}", expr, pos, self.last_included_position, self.last_included_line_number);
         if self.insert_code {
